@@ -1,6 +1,7 @@
 package main
 
 import (
+	"os"
 	"fmt"
 	"go/ast"
 	"go/importer"
@@ -54,6 +55,8 @@ type typeDecls struct {
 	freshAttr map[*VOpaque]map[string]*VOpaque
 	asIface   map[*VOpaque]string   // type declared as an interface with this marker method (target of an AssignableTo)
 	asImpl    map[*VOpaque][]string // marker methods a type implements (source of an AssignableTo)
+	unpinned  []map[string]bool     // per basic type whose kind was not pinned: the spellings it may have
+	nilArgs   []*VOpaque            // argument types that may be the type of an untyped nil
 }
 
 func (td *typeDecls) freshName() string {
@@ -651,7 +654,28 @@ func (td *typeDecls) declare(name string, o *VOpaque, depth int) {
 		}
 		switch {
 		case b == "":
-			b = "int"
+			// the exact kind was never pinned down: any basic kind the path did not exclude is a possible input. The first
+			// allowed spelling of the list is the baseline; r4AltBasic selects another one (rR4 tries them in turn).
+			cands := td.basicCandidates(o, u)
+			td.unpinned = append(td.unpinned, cands)
+			b = ""
+			if r4AltBasic != "" && cands[r4AltBasic] {
+				b = r4AltBasic
+			}
+			if b == "" {
+				for _, sp := range basicSpellings {
+					if cands[sp] {
+						b = sp
+						break
+					}
+				}
+			}
+			if b == "" {
+				b = "int"
+			}
+			if b == "unsafe.Pointer" {
+				td.useUnsafe = true
+			}
 		case strings.HasPrefix(b, "?"):
 			td.skip = "basic kind " + b[1:] + " has no Go spelling"
 			b = "int"
@@ -786,6 +810,9 @@ func typedSource(rs *Resid, funcSig func(h *Hole, td *typeDecls) string) (string
 // lastSkip: why the last residual could not be typed (diagnostics only).
 var lastSkip string
 
+// lastTD: the declarations built for the last residual (rR4 reads which basic kinds were left open).
+var lastTD *typeDecls
+
 func typecheckResidOpt(rs *Resid, funcSig func(h *Hole, td *typeDecls) string, srcOnly bool) ([]string, bool, string) {
 	lastSkip = ""
 	if rs.Err != nil {
@@ -797,6 +824,7 @@ func typecheckResidOpt(rs *Resid, funcSig func(h *Hole, td *typeDecls) string, s
 		return nil, false, ""
 	}
 	td := &typeDecls{rs: rs, byVal: map[*VOpaque]string{}}
+	lastTD = td
 	td.index()
 	// TYPE holes first so that they keep their placeholder names
 	var ids []string
@@ -1111,6 +1139,7 @@ func cmdTyped(args []string) {
 // unnamed, identities, methods found by the method-lookup predicates, documented helper signatures). An error means: for an
 // input of that shape goderive exits 0 and derived.gen.go does not compile.
 func rR4(c *Ctx, plugins ...string) {
+	r4Ctx = c
 	for _, p := range plugins {
 		if p == "hash" {
 			// the result type of the Hash method that hasHashMethod accepts comes from the tabulation of that predicate
@@ -1151,35 +1180,121 @@ func rR4(c *Ctx, plugins ...string) {
 				continue
 			}
 			typed++
+			alt := ""
+			var altFails []altFail
 			if len(errs) == 0 {
-				c.Rep.pass("R4")
-				continue
-			}
-			line := 0
-			fmt.Sscanf(errs[0], "%d:", &line)
-			gf, where := "?", []string{}
-			if line > 0 && line-1 < len(rs.Run.LinePos) {
-				gf = c.Repo.funcAt(rs.Run.LinePos[line-1])
-				where = append(where, rs.Run.where(c.Repo, line))
-			}
-			msg := stripLine(errs[0])
-			what := "the emitted code does not type-check"
-			if gf == "?" && len(rs.Funcs) > 0 {
-				// the error is in the synthetic call site: the derived function does not accept the call's argument types
-				if l := rs.line(rs.Funcs[0].Pos()); l > 0 && l-1 < len(rs.Run.LinePos) {
-					gf = c.Repo.funcAt(rs.Run.LinePos[l-1])
-					where = append(where, rs.Run.where(c.Repo, l))
+				// the baseline spelling of every basic type of unpinned kind type-checks: try the other kinds the path allows
+				td0 := lastTD
+				for _, sp := range basicSpellings {
+					use := false
+					for _, cands := range td0.unpinned {
+						if cands[sp] {
+							use = true
+						}
+					}
+					if !use {
+						continue
+					}
+					r4AltBasic = sp
+					src2, ok2 := typedSource(rs, docSig)
+					if !ok2 || src2 == src || srcSeen[src2] {
+						r4AltBasic = ""
+						continue
+					}
+					srcSeen[src2] = true
+					errs2, done2 := typecheckResid(rs, docSig)
+					r4AltBasic = ""
+					if done2 && len(errs2) > 0 {
+						altFails = append(altFails, altFail{sp, src2, errs2})
+					}
 				}
-				what = "the derived function does not accept arguments of the types the call was made with"
+				if len(altFails) > 0 {
+					errs, src, alt = altFails[0].errs, altFails[0].src, altFails[0].sp
+				}
+				// an argument that may be the untyped nil: its type has no spelling, so it must not be printed
+				if alt == "" {
+					nilArgs := td0.nilArgs
+					for i, a := range rs.Run.AddArgs {
+						ao, _ := a.(*VOpaque)
+						if ao == nil || ao.Kind != "" || ao.attrs["Underlying"] != nil {
+							continue // something about its kind was established
+						}
+						notBasic := false
+						for _, nk := range ao.notKinds {
+							if nk == "*types.Basic" {
+								notBasic = true
+							}
+						}
+						if notBasic {
+							continue
+						}
+						if i == 0 && g24FirstArgNotNil(c) {
+							continue
+						}
+						nilArgs = append(nilArgs, ao)
+					}
+					for _, no := range nilArgs {
+						for _, h := range rs.Run.Holes {
+							if h.Kind != "TYPE" || strings.HasPrefix(h.Origin, "mangled:") {
+								continue
+							}
+							hv, _ := h.Val.(*VOpaque)
+							if hv == nil || (hv != no && underlyingVal(hv) != no && hv != underlyingVal(no)) {
+								continue
+							}
+							if !strings.Contains(rs.Run.Text, h.ID) {
+								continue
+							}
+							key := fmt.Sprintf("R4|%s|%s|untyped nil printed", p, c.Repo.funcAt(firstPosOf(rs, h.ID)))
+							if !seen[key] {
+								seen[key] = true
+								c.Rep.fail(Finding{Rule: "R4", Key: key, Where: []string{c.Repo.pos(firstPosOf(rs, h.ID))}, Plugin: p, Script: rs.Run.Script,
+									Msg:    fmt.Sprintf("plugin %s accepts an argument whose type this path only established to be basic and prints the type: for the literal nil as argument that is `untyped nil`, which is not Go — goderive exits 0 and derived.gen.go does not parse", p),
+									Detail: "abstract path: " + rs.Run.describe() + "\nresidual:\n" + rs.Run.excerpt(30)})
+							}
+						}
+					}
+				}
+				if alt == "" {
+					c.Rep.pass("R4")
+					continue
+				}
 			}
-			key := fmt.Sprintf("R4|%s|%s|%s", p, gf, r4Norm(msg))
-			if seen[key] {
-				continue // same defect on another path
+			if len(altFails) == 0 {
+				altFails = []altFail{{alt, src, errs}}
 			}
-			seen[key] = true
-			c.Rep.fail(Finding{Rule: "R4", Key: key, Where: where, Plugin: p, Script: rs.Run.Script,
-				Msg:    fmt.Sprintf("plugin %s: for an input of this shape %s (%s): goderive exits 0 and the package no longer compiles", p, what, msg),
-				Detail: "abstract path: " + rs.Run.describe() + "\ntyped residual:\n" + src + "\nerrors:\n" + strings.Join(errs, "\n")})
+			for _, af := range altFails {
+				errs, src, alt := af.errs, af.src, af.sp
+				line := 0
+				fmt.Sscanf(errs[0], "%d:", &line)
+				gf, where := "?", []string{}
+				if line > 0 && line-1 < len(rs.Run.LinePos) {
+					gf = c.Repo.funcAt(rs.Run.LinePos[line-1])
+					where = append(where, rs.Run.where(c.Repo, line))
+				}
+				msg := stripLine(errs[0])
+				what := "the emitted code does not type-check"
+				if gf == "?" && len(rs.Funcs) > 0 {
+					// the error is in the synthetic call site: the derived function does not accept the call's argument types
+					if l := rs.line(rs.Funcs[0].Pos()); l > 0 && l-1 < len(rs.Run.LinePos) {
+						gf = c.Repo.funcAt(rs.Run.LinePos[l-1])
+						where = append(where, rs.Run.where(c.Repo, l))
+					}
+					what = "the derived function does not accept arguments of the types the call was made with"
+				}
+				key := fmt.Sprintf("R4|%s|%s|%s", p, gf, r4Norm(msg))
+				if alt != "" {
+					key += "|as " + alt
+					what += " when the basic type whose exact kind this path left open is " + alt
+				}
+				if seen[key] {
+					continue // same defect on another path
+				}
+				seen[key] = true
+				c.Rep.fail(Finding{Rule: "R4", Key: key, Where: where, Plugin: p, Script: rs.Run.Script,
+					Msg:    fmt.Sprintf("plugin %s: for an input of this shape %s (%s): goderive exits 0 and the package no longer compiles", p, what, msg),
+					Detail: "abstract path: " + rs.Run.describe() + "\ntyped residual:\n" + src + "\nerrors:\n" + strings.Join(errs, "\n")})
+			}
 		}
 		c.Rep.analysed("typed_residuals:"+p, typed)
 		c.Rep.analysed("untyped_residuals:"+p, skipped)
@@ -1203,4 +1318,238 @@ func r4Norm(msg string) string {
 		msg = msg[:140]
 	}
 	return msg
+}
+
+// r4AltBasic: the spelling tried for basic types whose exact kind the abstract path did not pin down ("" = baseline).
+var r4AltBasic string
+
+// basicSpellings: one representative Go spelling per class of basic kinds that generators treat differently.
+var basicSpellings = []string{"int", "string", "float64", "bool", "complex128", "unsafe.Pointer"}
+
+func spellingOfKind(k types.BasicKind) string {
+	switch {
+	case k == types.Bool || k == types.UntypedBool:
+		return "bool"
+	case k == types.String || k == types.UntypedString:
+		return "string"
+	case k == types.Float32 || k == types.Float64 || k == types.UntypedFloat:
+		return "float64"
+	case k == types.Complex64 || k == types.Complex128 || k == types.UntypedComplex:
+		return "complex128"
+	case k == types.UnsafePointer:
+		return "unsafe.Pointer"
+	case k == types.UntypedNil:
+		return "nil"
+	case k >= types.Int && k <= types.Uintptr, k == types.UntypedInt, k == types.UntypedRune:
+		return "int"
+	}
+	return ""
+}
+
+var infoMaskRe = regexp.MustCompile(`^B:(.*)\.Info\(\)&(\d+)\x{27e8}.*\x{27e9}(!=|==)0$`)
+
+// basicCandidates: the spellings a basic type may have, given everything this path asked about its kind: switch arms not
+// taken, ==/!= tests, Info() mask tests. Only an argument type itself (typs[i]) can be untyped (the type of a constant or of
+// nil); the components of a type are always typed.
+func (td *typeDecls) basicCandidates(o, u *VOpaque) map[string]bool {
+	run := td.rs.Run
+	origins := map[string]bool{}
+	for _, v := range []*VOpaque{o, u} {
+		if v != nil {
+			origins[v.Origin] = true
+			origins[tieRe.ReplaceAllString(v.Origin, "[*]")] = true
+			if uu, ok := v.attrs["Underlying"].(*VOpaque); ok {
+				origins[uu.Origin] = true
+				origins[tieRe.ReplaceAllString(uu.Origin, "[*]")] = true
+			}
+		}
+	}
+	topLevel := false
+	for org := range origins {
+		if topArgRe.MatchString(org) {
+			topLevel = true
+		}
+	}
+	allowed := map[types.BasicKind]bool{}
+	for k := types.Bool; k <= types.UntypedNil; k++ {
+		if k > types.UnsafePointer && !topLevel {
+			continue
+		}
+		allowed[k] = true
+	}
+	kindByName := map[string]types.BasicKind{}
+	for k := types.Bool; k <= types.UntypedNil; k++ {
+		nm := types.Typ[k].Name()
+		key := "types." + strings.Title(nm)
+		if strings.HasPrefix(nm, "untyped ") {
+			key = "types.Untyped" + strings.Title(strings.TrimPrefix(nm, "untyped "))
+		}
+		if k == types.UnsafePointer {
+			key = "types.UnsafePointer"
+		}
+		kindByName[key] = k
+	}
+	for _, d := range run.Decisions {
+		for org := range origins {
+			// switch on Kind(): the default arm excludes every listed kind
+			if strings.HasPrefix(d.Sym, "S:"+org+".Kind()#") && d.Choice == len(d.Cands)-1 {
+				for _, cnd := range d.Cands[:len(d.Cands)-1] {
+					for _, one := range strings.Split(cnd, ",") {
+						if k, ok := kindByName[strings.TrimSpace(one)]; ok {
+							delete(allowed, k)
+						}
+					}
+				}
+			}
+			for _, form := range []struct {
+				op     string
+				choice int
+			}{{"==", 1}, {"!=", 0}} {
+				pre := "B:" + org + ".Kind()" + form.op
+				if strings.HasPrefix(d.Sym, pre) && d.Choice == form.choice {
+					n := 0
+					if _, err := fmt.Sscanf(strings.TrimPrefix(d.Sym, pre), "%d", &n); err == nil {
+						delete(allowed, types.BasicKind(n))
+					}
+				}
+			}
+		}
+		if m := infoMaskRe.FindStringSubmatch(d.Sym); m != nil && origins[m[1]] {
+			mask := 0
+			fmt.Sscanf(m[2], "%d", &mask)
+			wantNonZero := (m[3] == "!=") == (d.Choice == 0)
+			for k := range allowed {
+				nz := int(types.Typ[k].Info())&mask != 0
+				if nz != wantNonZero {
+					delete(allowed, k)
+				}
+			}
+		}
+	}
+	// a defined type whose underlying type is unsafe.Pointer cannot have methods (invalid receiver): a path on which a method
+	// lookup succeeded for the type rules that kind out
+	hasMethod := false
+	for _, v := range []*VOpaque{o, u} {
+		if v == nil {
+			continue
+		}
+		for _, d := range run.Decisions {
+			if strings.HasPrefix(d.Sym, "B:pred:") && strings.Contains(d.Sym, "("+v.Origin+",)!=nil") && d.Choice == 0 {
+				hasMethod = true
+			}
+		}
+		for _, pred := range []string{"hasHashMethod", "hasDeepCopyMethod", "hasGoStringMethod"} {
+			if ans, asked := run.predTrue(pred, v); asked && ans {
+				hasMethod = true
+			}
+		}
+	}
+	// the structural predicates are answered by the oracle during the sweep; what their source says about each basic kind
+	// (evaluated abstractly, cached) relates the answer on this path to the kind
+	if r4Ctx != nil {
+		for _, v := range []*VOpaque{o, u} {
+			if v == nil {
+				continue
+			}
+			for _, pred := range []string{"canEqual", "canCopy", "IsComparable"} {
+				ans, asked := run.predTrue(pred, v)
+				if !asked {
+					continue
+				}
+				for k := range allowed {
+					if val, known := predOnBasicKind(r4Ctx, run.Plugin, pred, k); known && val != ans {
+						delete(allowed, k)
+					}
+				}
+			}
+		}
+	}
+	if hasMethod {
+		delete(allowed, types.UnsafePointer)
+		for k := types.UntypedBool; k <= types.UntypedNil; k++ {
+			delete(allowed, k)
+		}
+	}
+	out := map[string]bool{}
+	for k := range allowed {
+		if sp := spellingOfKind(k); sp != "" && sp != "nil" {
+			out[sp] = true
+		}
+	}
+	if allowed[types.UntypedNil] {
+		first := false
+		for org := range origins {
+			if strings.HasPrefix(org, "typs[0]") {
+				first = true
+			}
+		}
+		// (*pkg).Add rejects a call whose first argument is nil (G24)
+		if !(first && r4Ctx != nil && g24FirstArgNotNil(r4Ctx)) {
+			if os.Getenv("GDV_DEBUG_NIL") != "" {
+				fmt.Fprintf(os.Stderr, "nilArg %s origins=%v script=%v\n", o.Origin, origins, run.Script)
+			}
+			td.nilArgs = append(td.nilArgs, o)
+		}
+	}
+	return out
+}
+
+var topArgRe = regexp.MustCompile(`^typs\[(\d+|\*)\](\.Underlying\(\))?$`)
+
+// firstPosOf: the generator position of the first residual line that mentions the placeholder.
+func firstPosOf(rs *Resid, id string) token.Pos {
+	for i, l := range strings.Split(rs.Run.Text, "\n") {
+		if strings.Contains(l, id) && i < len(rs.Run.LinePos) {
+			return rs.Run.LinePos[i]
+		}
+	}
+	return token.NoPos
+}
+
+type altFail struct {
+	sp   string
+	src  string
+	errs []string
+}
+
+// r4Ctx: the check context of the running rR4 (for abstract evaluation of predicates).
+var r4Ctx *Ctx
+
+var predKindMemo = map[string][2]bool{}
+
+// predOnBasicKind evaluates a structural predicate of the plugin (or of package derive) on a basic type of the given kind.
+func predOnBasicKind(c *Ctx, plugin, pred string, k types.BasicKind) (val, known bool) {
+	key := fmt.Sprintf("%s.%s#%d", plugin, pred, k)
+	if m, ok := predKindMemo[key]; ok {
+		return m[0], m[1]
+	}
+	defer func() { predKindMemo[key] = [2]bool{val, known} }()
+	fi := c.Repo.lookup(plugin + "." + pred)
+	if fi == nil {
+		fi = c.Repo.lookup("derive." + pred)
+	}
+	if fi == nil || fi.Decl.Body == nil {
+		return false, false
+	}
+	in := &Interp{repo: c.Repo, plugin: "derive", decls: c.R.decls, or: &Oracle{}, memo: map[string]int{}, shape: 1, arities: []int{1, 0},
+		preds: map[string]Value{}, stack: map[*ast.FuncDecl]int{}, imports: map[string]int{}, importUse: map[string]bool{}, holes: map[string]*Hole{}, g9mode: true,
+		intEq: map[string]int{"t.Kind()": int(k)}}
+	arg := &VOpaque{Origin: "t", Kind: "*types.Basic"}
+	var res Value
+	failed := false
+	func() {
+		defer func() {
+			if e := recover(); e != nil {
+				failed = true
+			}
+		}()
+		res = in.callFunc(&VFunc{Decl: fi.Decl, Pkg: fi.Pkg}, []Value{arg}, token.NoPos)
+	}()
+	if failed || len(in.decisions) > 0 {
+		return false, false
+	}
+	if b, ok := res.(VBool); ok && b.Known {
+		return b.V, true
+	}
+	return false, false
 }
